@@ -37,6 +37,7 @@ class Scenario:
         self.db_exists = kw.pop("db_exists", True)
         self.is_long_read = kw.pop("is_long_read", False)
         self.profile_options = kw.pop("profile_options", None)   # options section of the profile file Profile.load reads
+        self.fail_genes = kw.pop("fail_genes", ())      # genes (by database name) for which the structure stage finds nothing
         self.args = kw.pop("args", {})                  # arguments of genotype()
         self.params = kw.pop("params", {})              # **params
         assert not kw, kw
@@ -54,6 +55,7 @@ class GenotypeModel:
 
             profile_model = ProfileModel(repo)
         self.profile_model = profile_model
+        self.caches = {}   # memo tables of module-level helpers decorated with a cache: they live as long as the process (= this model)
 
     # -- stubs ---------------------------------------------------------------------------------------------------------
     def _solution(self, fields, trace, tag):
@@ -67,7 +69,7 @@ class GenotypeModel:
             o.__dict__["_solution_nice"] = lambda: str(o.__dict__.get("solution"))
             o.__dict__["set_diplotype"] = lambda d: o.__dict__.__setitem__("diplotype", d)
             o.__dict__["get_diplotype"] = lambda: o.__dict__["diplotype"]
-            o.__dict__["get_major_diplotype"] = lambda: "M[" + str(o.__dict__.get("solution")) + "]"
+            o.__dict__["get_major_diplotype"] = lambda: "M[" + str(getattr(o.__dict__.get("major_solution"), "solution", o.__dict__.get("solution"))) + "]"
             o.__dict__["get_minor_diplotype"] = lambda legacy=False: ("L[" if legacy else "m[") + str(o.__dict__.get("solution")) + "]"
             o.__dict__["get_mutation_coverages"] = lambda cov: []
             trace.append((tag, o))
@@ -104,7 +106,9 @@ class GenotypeModel:
             return pm.new("dumped", _GRr("22", 100, 110), {"dumped": True})
 
         def gene_ctor(path, genome=None):
-            g = Obj(name="G", genome=genome, do_copy_number=True, path=path, alleles={}, get_rsid=lambda m, default=True: "rs" + str(m),
+            nm = "G" if "/" not in str(path) else str(path).rsplit("/", 1)[1].split(".")[0].upper()
+            nm = "G" if nm == "G" else nm
+            g = Obj(name=nm, genome=genome, do_copy_number=True, path=path, alleles={}, get_rsid=lambda m, default=True: "rs" + str(m),
                     regions=[{"e1": GR("22", 10, 20)}])
             trace.append(("Gene", path, genome, g))
             return g
@@ -120,6 +124,8 @@ class GenotypeModel:
 
         def est_cn(gene, profile, coverage, solver="any", debug=None, **kw):
             out = [Obj(score=s, label=l, _solution_nice=(lambda l=l: l), _kind="CN") for l, s in sc.cn]
+            if gene.name in sc.fail_genes:
+                out = []
             trace.append(("estimate_cn", gene, profile, coverage, dict(solver=solver, debug=debug, **kw), dict(do_copy_number=gene.do_copy_number,
                                                                                                                   profile=dict(profile.__dict__))))
             return out
@@ -160,7 +166,24 @@ class GenotypeModel:
         }
         env = {"json": collections.defaultdict(dict), "OUTPUT_COLS": ["c1", "c2"], "sys.stdout": Obj(name="<stdout>")}
         fn = Lifted(self.f, funcs=funcs, consts=self.consts, env=env)
-        funcs["genotype"] = fn
+        fn.funcs["genotype"] = fn
+        # module-level helpers of genotype.py are lifted too (interprocedural folding); a cache decorator is modelled as
+        # what it is: a memo table that outlives the call
+        for node in self.repo.mod("genotype").tree.body:
+            if isinstance(node, ast.FunctionDef) and node is not self.f and node.name not in fn.funcs:
+                h = Lifted(node, funcs=funcs, consts=self.consts, env=env)
+                h.funcs = fn.funcs
+                if any("cache" in ast.unparse(d) for d in node.decorator_list):
+                    memo = self.caches.setdefault(node.name, {})
+
+                    def cached(*a, _h=h, _m=memo, **k):
+                        key = repr((a, sorted(k.items())))
+                        if key not in _m:
+                            _m[key] = _h(*a, **k)
+                        return _m[key]
+                    fn.funcs[node.name] = cached
+                else:
+                    fn.funcs[node.name] = h
         a = dict(gene_db="g", sam_path="in.bam", profile_name="illumina")
         a.update(sc.args)
         a.update(sc.params)
